@@ -732,47 +732,59 @@ func checkC15(c *Ctx, p *Prog, r *Result) {
 			r.table(p, "C15.header-reservation", "reservation before "+p.FuncName(fn), p.Pos(fn.Pos()), false, "message struct or budget parameter not recognised: undecided")
 			continue
 		}
-		pi := -1
-		for i, q := range fn.Params {
-			if q == budget {
-				pi = i
-			}
-		}
+		// find `x - c` feeding the budget parameter, following the parameter up
+		// through callers that merely pass their own parameter on
 		found := false
-		for _, ed := range p.CallGraph().in[fn] {
-			cs, ok := ed.Site.(ssa.CallInstruction)
-			if !ok || ed.Kind != "static" || ed.Caller == fn || pi >= len(cs.Common().Args) {
-				continue
+		var follow func(g *ssa.Function, prm *ssa.Parameter, depth int)
+		follow = func(g *ssa.Function, prm *ssa.Parameter, depth int) {
+			if depth > 3 {
+				return
 			}
-			arg := cs.Common().Args[pi]
-			// follow a loop-carried / reassigned variable back to `x - c`
-			var sub *ssa.BinOp
-			var walk func(v ssa.Value, d int)
-			walk = func(v ssa.Value, d int) {
-				if d > 4 || sub != nil {
-					return
+			pi := -1
+			for i, q := range g.Params {
+				if q == prm {
+					pi = i
 				}
-				switch x := v.(type) {
-				case *ssa.BinOp:
-					if x.Op == token.SUB {
-						if _, isC := constInt(intRootNoVar(x.Y)); isC {
-							sub = x
+			}
+			for _, ed := range p.CallGraph().in[g] {
+				cs, ok := ed.Site.(ssa.CallInstruction)
+				if !ok || ed.Kind != "static" || ed.Caller == g || pi >= len(cs.Common().Args) {
+					continue
+				}
+				arg := cs.Common().Args[pi]
+				var sub *ssa.BinOp
+				var up *ssa.Parameter
+				var walk func(v ssa.Value, d int)
+				walk = func(v ssa.Value, d int) {
+					if d > 4 || sub != nil {
+						return
+					}
+					switch x := v.(type) {
+					case *ssa.BinOp:
+						if x.Op == token.SUB {
+							if _, isC := constInt(intRootNoVar(x.Y)); isC {
+								sub = x
+							}
 						}
-					}
-				case *ssa.Phi:
-					for _, e := range x.Edges {
-						walk(e, d+1)
+					case *ssa.Phi:
+						for _, e := range x.Edges {
+							walk(e, d+1)
+						}
+					case *ssa.Parameter:
+						up = x
 					}
 				}
+				walk(arg, 0)
+				if sub != nil {
+					found = true
+					c, _ := constInt(intRootNoVar(sub.Y))
+					r.table(p, "C15.header-reservation", "reservation in "+p.FuncName(ed.Caller)+" for "+siteKey(p, cs), p.instrPos(sub), c >= need, fmt.Sprintf("reserves %d byte(s); the wrapper of the message struct needs %d", c, need))
+				} else if up != nil {
+					follow(ed.Caller, up, depth+1)
+				}
 			}
-			walk(arg, 0)
-			if sub == nil {
-				continue
-			}
-			found = true
-			c, _ := constInt(intRootNoVar(sub.Y))
-			r.table(p, "C15.header-reservation", "reservation in "+p.FuncName(ed.Caller)+" for "+siteKey(p, cs), p.instrPos(sub), c >= need, fmt.Sprintf("reserves %d byte(s); the wrapper of the message struct needs %d", c, need))
 		}
+		follow(fn, budget, 0)
 		if !found {
 			r.table(p, "C15.header-reservation", "reservation before "+p.FuncName(fn), p.Pos(fn.Pos()), false, "no caller subtracts a constant from the negotiated size: undecided")
 		}
